@@ -3,6 +3,8 @@ C17 — deserializing any proto terminates with an error or a consistent IR (mod
 -/
 import IrVerif.Lemmas.ScopeTree
 import IrVerif.Lemmas.ScopeIdem
+import IrVerif.Lemmas.ScopeKernel
+import IrVerif.Lemmas.ScopeReplDeser
 namespace IrVerif.Scope
 
 /-- **C17_total**: `deserialize` is a total function on every `GraphP`, with no well-formedness
@@ -218,6 +220,56 @@ theorem C17_consistent (p : GraphP) (w : World) (h : deserialize p = .ok w) : Co
     have := deserGraph_links p {} [] st g [] [] (fun _ _ => rfl) (fun _ ht => by simp at ht) Inv.empty hg
     simp only [List.nil_append] at this
     exact this.consistent (deserGraph_tree p {} [] st g (fun _ _ => rfl) (fun _ ht => by simp at ht) hg)
+
+/-- **C17_consistent_is_WF**: the consistency invariant of this model IS the kernel invariant of C01.
+    Under the embedding `toKernel` (value `v` ↦ kernel value `v`; node / graph with creation index `i` ↦
+    kernel node / graph `i`; the tree is flattened, reference counters are the multiplicities) the 12
+    fields of `Consistent` give the six clauses `I_use`, `I_prod`, `I_root`, `I_own`, `I_key`, `I_node` of
+    `Kernel.WF` (clause-by-clause correspondence: see `consistent_toKernel_WF`).  `Bounded w` says that
+    the store is blank above its allocation counters and that node / graph indices are below theirs; it is
+    what makes the list-based kernel world a faithful copy of the function-based stores.
+    The converse is not claimed: `Consistent` is stronger (`index_iff_producer`, tree-shaped nesting,
+    distinct creation indices) than `WF`. -/
+theorem C17_consistent_is_WF (w : World) (hc : Consistent w) (hb : Bounded w) : Kernel.WF (toKernel w) :=
+  consistent_toKernel_WF w hc.use_of_input hc.input_of_use hc.uses_nodup hc.producer_of_output
+    hc.output_of_producer hc.node_ids_distinct hc.graph_ids_distinct hc.owned hc.owner_of_flag hc.roots hc.tree hb
+
+/-- what deserialization returns is bounded -/
+theorem deserialize_bounded (p : GraphP) (w : World) (h : deserialize p = .ok w) : Bounded w := by
+  unfold deserialize at h
+  split at h
+  · simp at h
+  · rename_i st g hg
+    simp only [Except.ok.injEq] at h
+    subst h
+    have hinv := deserGraph_links p {} [] st g [] [] (fun _ _ => rfl) (fun _ ht => by simp at ht) Inv.empty hg
+    simp only [List.nil_append] at hinv
+    obtain ⟨hf, _⟩ := deserGraph_struct p {} [] st g (fun _ _ => rfl) (fun _ ht => by simp at ht) hg
+    exact ⟨hf, hinv.n.lt, hinv.o.lt⟩
+
+/-- **C17_deserialize_WF**: every IR that deserialization returns satisfies the kernel invariant of C01
+    (so every theorem of C01 about `WF` worlds applies to freshly deserialized models). -/
+theorem C17_deserialize_WF (p : GraphP) (w : World) (h : deserialize p = .ok w) : Kernel.WF (toKernel w) :=
+  C17_consistent_is_WF w (C17_consistent p w h) (deserialize_bounded p w h)
+
+/-- **C17_idempotent** (the full statement, no hypothesis on the proto): whenever deserialization returns
+    an IR `w`, serializing `w` succeeds and gives a proto `q` that is a fix-point:
+    `serialize (deserialize q) = q`.
+    Covered shapes include everything `deserialize` accepts: dangling input names (placeholder values,
+    shared by later references in the same scope and in graphs nested in later nodes), graph outputs
+    that nothing produces (fresh values, one per entry), duplicate graph-input names, an initializer
+    for a graph input, duplicate initializer tensors, names shadowed in nested scopes, nodes in any
+    order, empty-named optional inputs and outputs, trailing empty outputs (dropped by the first
+    serialization), value_info entries that nothing refers to (dropped), a shape without a type (dropped).
+    Proof: `deserialize_reloadable` (what the deserializer builds satisfies the certificate `replG`:
+    its name resolution, re-run on the model's own names, reproduces the model) and
+    `reloadable_fixpoint` (a reloadable model round-trips to a model with the same tree up to renaming,
+    same names, same emitted type / shape / documentation, same initializer tensors, and that model
+    serializes to the same proto). -/
+theorem C17_idempotent (p : GraphP) (w : World) (hd : deserialize p = .ok w) :
+    ∃ (w1 : World) (q : GraphP) (D : World) (w2 : World),
+      serialize w = .ok (w1, q) ∧ deserialize q = .ok D ∧ serialize D = .ok (w2, q) :=
+  reloadable_fixpoint w (deserialize_reloadable p w hd)
 
 /-- **C17_idempotent_partial**: if deserialization returns an IR `w` that is `Serializable` (the names
     of the proto were SSA per scope chain, every reference resolved to a definition of an enclosing
